@@ -160,3 +160,32 @@ def calls_matching(body, pred, blocks=None):
         if t["k"] == "call" and pred(t):
             out.append(b)
     return out
+
+
+def scan_offset_local(body):
+    """the local holding the scan offset: the one copied into `RangeFrom { start }` of the slice that is
+    given to Regex::captures (found through the MIR operands, independent of the variable's name)"""
+    from .facts import is_callee
+    # RangeFrom aggregates built from a plain local
+    cands = set()
+    for b in sorted(body.reachable()):
+        for st in body.blocks[b]["stmts"]:
+            if st["k"] == "assign" and st["rv"]["k"] == "aggregate" and st["rv"].get("adt") == "std::ops::RangeFrom" and st["rv"]["ops"]:
+                op = st["rv"]["ops"][0]
+                if op["k"] in ("copy", "move") and "p" not in op["p"]:
+                    cands.add(op["p"]["l"])
+    # follow plain copies back to a local that has more than one definition (the loop-carried variable)
+    defs = body.defs()
+    out = set()
+    for l in cands:
+        seen = set()
+        while l not in seen:
+            seen.add(l)
+            ds = [d for d in defs.get(l, []) if d[2] == "assign"]
+            if len(ds) == 1 and ds[0][3]["k"] == "use" and ds[0][3]["op"]["k"] in ("copy", "move") and "p" not in ds[0][3]["op"]["p"]:
+                l = ds[0][3]["op"]["p"]["l"]
+            else:
+                break
+        if len(defs.get(l, [])) >= 2:
+            out.add(l)
+    return sorted(out)[0] if len(out) == 1 else None
